@@ -36,6 +36,10 @@ def check_c09(rep):
     sc = [(f"c09-{p}-{s}", p, *GC.c09_script(s, p)) for i, s in enumerate(seeds(700 if q else 12000, 9))
           for p in (("at4",) if i % 2 == 0 else ("at5",))]
     run_generated(rep, "initialisation scenarios: installations x extras x segmentation x silent step x connect delay", sc)
+    for proto in ("at4", "at5"):
+        l2c_exhaustive(rep, f"handshake / init() / shutdown interleavings ({proto})",
+                       dict(PROTO=f'"{proto}"', MaxEnv=9 if q else 11, MaxFrames=7))
+    l2c_replay(rep, 600 if q else 12000)
     rep.assumptions += API_ASSUME
 
 
@@ -44,6 +48,10 @@ def check_c08(rep):
     sc = [(f"c08-{p}-{s}", p, *GC.c08_script(s, p)) for i, s in enumerate(seeds(500 if q else 8000, 8))
           for p in (("at4",) if i % 2 == 0 else ("at5",))]
     run_generated(rep, "heartbeat answer patterns (prompt / late by 10 s, 29.875 s, 30.25 s, 60 s / never) over 3..5 beats", sc)
+    l2c_exhaustive(rep, "heartbeat loop and watchdog after initialisation (at5)",
+                   dict(PROTO='"at5"', MaxEnv=10 if q else 12, MaxFrames=8, Notifies="FALSE"))
+    if not q:
+        l2c_sensitivity(rep, "F_WATCHDOG", dict(PROTO='"at5"', MaxEnv=10, MaxFrames=8, Notifies="FALSE"), "ContractHolds")
     rep.assumptions += API_ASSUME
 
 
@@ -52,6 +60,8 @@ def check_c14(rep):
     sc = [(f"c14-{p}-{s}", p, *GC.c14_script(s, p)) for i, s in enumerate(seeds(500 if q else 8000, 14))
           for p in (("at4",) if i % 2 == 0 else ("at5",))]
     run_generated(rep, "connection loss after initialisation x console state changes x outage length; AT4 group-status gaps", sc)
+    l2c_exhaustive(rep, "link loss / refresh / AT4 poll after initialisation (at4)",
+                   dict(PROTO='"at4"', MaxEnv=10 if q else 12, MaxFrames=8, Notifies="FALSE"))
     rep.assumptions += API_ASSUME
 
 
@@ -59,6 +69,11 @@ def check_c15_api(rep, n):
     sc = [(f"c15-{p}-{s}", p, *GC.c15_script(s, p)) for i, s in enumerate(seeds(n, 15))
           for p in (("at4",) if i % 2 == 0 else ("at5",))]
     run_generated(rep, "shutdown() at chosen instants of the client's life, k loop iterations, long idle, send, optional re-init", sc)
+    l2c_exhaustive(rep, "shutdown() enabled in every state of the client (at4)", dict(PROTO='"at4"', MaxEnv=10, MaxFrames=7))
+    if n > 500:
+        l2c_exhaustive(rep, "shutdown() enabled in every state of the client (at5)", dict(PROTO='"at5"', MaxEnv=11, MaxFrames=7))
+        l2c_sensitivity(rep, "F_RECHECK", dict(PROTO='"at4"', MaxEnv=10, MaxFrames=7), "ShutdownIsFinal")
+    l2c_replay(rep, 400 if n <= 500 else 8000)
 
 
 def check_c10(rep):
@@ -179,3 +194,57 @@ def check_c19(rep):
     rep.part("paired histories (same abstract installation, status changes and calls) on both generations", pairs=len(pairs))
     rep.sample({"kind": "paired scenario", "steps": scripts[0][3]["steps"], "at4_head": scripts[0][2][:8]})
     rep.assumptions += API_ASSUME + ["paired scenarios use integer temperatures, the common enums, turbo-capable zones and equal limits for all modes (documented differences masked)"]
+
+
+# ---------------------------------------------------------------------------------------------
+# ClientImpl: the implementation-shaped model of the API layer
+
+L2C_INV_PROPS = {"ShutdownIsFinal": "C15", "HeartbeatWhileReady": "C08"}
+
+
+def l2c_exhaustive(rep, name, over, timeout=2400):
+    from . import p_l2c as L2C
+    res = L2C.model_check(over, timeout=timeout)
+    rep.add_tlc({"states": res["states"], "transitions": res["transitions"]})
+    rep.part("ClientImpl model check: " + name, constants=over, states=res["states"], depth=res["depth"], complete=res["complete"],
+             wall_s=res["wall"], invariants_violated=res["invariants_violated"], clause=res["clause"])
+    if res["error"]:
+        rep.machinery.append(f"TLC error in ClientImpl {name}: {res['tail'][-600:]}")
+        return
+    for inv in res["invariants_violated"]:
+        props = lib.props_of(res["clause"]) if inv == "ContractHolds" else [L2C_INV_PROPS.get(inv, "")]
+        clause = res["clause"] if inv == "ContractHolds" else inv
+        if rep.prop in props:
+            rep.violation(clause, f"ClientImpl model ({name}) violates {inv}", {"key": "L2C:" + clause, "clause": clause, "model": "ClientImpl", "constants": over})
+
+
+def l2c_replay(rep, n):
+    from . import p_l2c as L2C
+    batch = []
+    for proto in ("at4", "at5"):
+        scripts, gen, bad = L2C.simulate_scripts(n // 2, lib.seed() % 100000, proto)
+        if bad:
+            rep.part("note", text="ClientImpl simulation reported a violation in the MODEL", tail=bad[0][-600:])
+        for i, l2 in enumerate(scripts):
+            hs, meta = L2C.to_harness(l2, proto, seed=i)
+            batch.append((f"l2c-{proto}-{i}", proto, hs, meta))
+    verdicts, metas = PC.run_batch(rep, batch)
+    judge(rep, verdicts, metas)
+    rep.part("ClientImpl schedules replayed into the real client", scripts=len(batch))
+    if batch:
+        rep.sample({"kind": "ClientImpl schedule", "l2_script": batch[0][3]["l2"]})
+
+
+def l2c_sensitivity(rep, flag, over, expect_inv, timeout=1200):
+    """Vacuity guard: with the modelled repair switched off the model must break the invariant, otherwise
+    the exhaustive run above would not be exercising the property (reported as a machinery failure)."""
+    from . import p_l2c as L2C
+    o = dict(over)
+    o[flag] = "FALSE"
+    res = L2C.model_check(o, timeout=timeout)
+    rep.add_tlc({"states": res["states"], "transitions": res["transitions"]})
+    got = expect_inv in res["invariants_violated"]
+    rep.part(f"ClientImpl sensitivity: {flag}=FALSE (pre-repair behaviour) must violate {expect_inv}", violated=res["invariants_violated"],
+             clause=res["clause"], states=res["states"], as_expected=got)
+    if not got:
+        rep.machinery.append(f"ClientImpl with {flag}=FALSE does not violate {expect_inv}: the model does not exercise the property")
